@@ -572,6 +572,8 @@ package lib
 //@ func Proxy(reg *DecoyRegistration, clientConn net.Conn, logger *log.Logger)
 //@   requires @SAFETY: reg != nil && clientConn != nil && logger != nil && reg.TransportPtr != nil && *reg.TransportPtr != nil && reg.RegistrationSource != nil
 // C06: the only address the relay dials is the registration's covert address (which ingest replaced by the checked one)
+// C17 "not in tunnel summaries": the tunnel statistics are filled without touching the registrant address
+//@   neverreads @C17: DecoyRegistration.registrationAddr
 //@   atcall net.Dial before: assert @C06 @C05: arg1 == reg.Covert
 //@   atcall net.Dial after: snap covert := res0
 //@   atcall net.Dial after: snap dialErr := res1
